@@ -27,9 +27,13 @@ func c02forms() []c02form {
 		{"value-ptr-struct", "!value &pk.Obj{}"}, {"value-struct", "!value pk.Obj{}"}, {"value-valstruct", `!value "fx/pk2".Val{}`},
 		{"value-unquoted-path", "!value fx/pk2.Const"}, {"value-local", `!value ".".Var`}, {"value-local-bare", "!value Const"},
 		{"value-tab", "!value\tpk2.Var"},
+		{"value-addr-varval", "!value &pk.VarVal"}, {"value-addr-local-varval", `!value &".".VarVal`}, {"value-addr-quoted-varval", `!value &"fx/pk2".VarVal`},
+		{"value-ptr-valstruct", "!value &pk2.Val{}"}, {"value-ptr-local-struct", `!value &".".Obj{}`}, {"value-local-chain", `!value ".".VarVal.F1`},
+		{"env-empty-default", `%env("C02_EMPTY", "fallback")%`}, {"env-empty", `%env("C02_EMPTY")%`}, {"env-set", `%env("C02_SET")%`}, {"envint-set", `%envInt("C02_INT")%`},
+		{"env-unset-default", `%env("C02_UNSET", "dflt")%`}, {"env-in-multi", `<%env("C02_EMPTY", "fb")%|%env("C02_SET")%|%envInt("C02_UNSET", 3)%>`},
 		{"gontainer", "$gontainer"},
 		{"p-int", "%pInt%"}, {"p-str", "%pStr%"}, {"p-nil", "%pNil%"}, {"p-bool", "%pBool%"}, {"p-float", "%pFloat%"}, {"p-uint", "%pUint%"}, {"p-multi", "%pMulti%"},
-		{"multi", "x%pInt%-%pStr%|%pNil%|%pBool%|%pFloat%"}, {"pct", "100%%"}, {"pct-only", "%%"}, {"fn", `%fnStr("a", 1)%`}, {"fn-int", `%fnInt()%`}, {"fn-in-multi", `<%fnInt(1, 2)%>`},
+		{"multi", "x%pInt%-%pStr%|%pNil%|%pBool%|%pFloat%"}, {"pct", "100%%"}, {"pct-only", "%%"}, {"fn", `%fnStr("a", 1)%`}, {"fn-int", `%fnInt()%`}, {"fn-in-multi", `<%fnInt(1, 2)%>`}, {"fn-typed", `%fnTyped(1, 2, 3, "x")%`}, {"fn-typed-variadic-in-multi", `<%fnTyped(-7, 2.5, 255, "", 1, 2.5)%>`},
 		{"tagged", "!tagged tg"}, {"tagged-empty", "!tagged nobody"}, {"tagged-spaces", "!tagged \t tg"},
 		{"near-value", "!valueX"}, {"near-gontainer", "$gontainerx"}, {"near-svc", " @dep"}, {"near-tagged", "!taggedx"}, {"near-bang", "!"}, {"near-dollar", "$"},
 	}
@@ -89,13 +93,16 @@ func usesLocal(vals ...any) bool {
 	return false
 }
 
+// environment of every C02 session: one variable set, one set to the empty string, one integer, one unset
+var c02env = map[string]string{"C02_SET": "from-env", "C02_EMPTY": "", "C02_INT": "42"}
+
 var c02ops = []ProbeOp{op("get", "sut"), op("get", "sut"), op("get", "dep"), opTag("tagged", "tg"), opCtx("getctx", "A", "sut"), op("counters", "")}
 
 func c02cases(quick bool) []*BCase {
 	var cases []*BCase
 	forms := c02forms()
 	add := func(id string, cfg *Cfg, local bool) {
-		cases = append(cases, &BCase{ID: id, Cfg: cfg, Local: local, Sessions: []BSession{{Ops: c02ops}}})
+		cases = append(cases, &BCase{ID: id, Cfg: cfg, Local: local, Sessions: []BSession{{Ops: c02ops, Env: c02env}}})
 	}
 	// every (position, form) singly
 	for _, pos := range c02positions {
@@ -245,6 +252,9 @@ func c02cases(quick bool) []*BCase {
 		{"value-chain", Service{Value: P(`"fx/pk".VarVal.F1`)}},
 		{"value-local", Service{Value: P(`".".Var`)}},
 		{"value-typed", Service{Value: P("&pk.Obj{}"), Type: P("*pk.Obj")}},
+		{"value-addr-varval", Service{Value: P("&pk.VarVal")}},
+		{"value-addr-local-varval", Service{Value: P(`&".".VarVal`)}},
+		{"value-ptr-valstruct", Service{Value: P(`&"fx/pk2".Val{}`), Fields: []KV{{"F1", "x"}}}},
 		{"type-val", Service{Type: P("pk.Val"), Fields: []KV{{"F1", "@dep"}, {"F2", 2}}}},
 		{"type-obj", Service{Type: P("pk2.Obj")}},
 		{"type-ptr", Service{Type: P("*pk.Obj")}},
